@@ -131,8 +131,19 @@ def run(ctx):
         ctx.seen("program_shapes", shape)
         # both evaluators are built before either is used, as in a service that hosts several experiments
         built = {salt: im.construct(program(vec, salt, fields, shape)) for salt in (s1, s2)}
+        reuse = ci % 3 == 2
+        if reuse and built[s1][0] == "ok":
+            # a long-lived evaluator whose experiment is updated to the other salt (after it has served the population)
+            built[s2] = None
+        ctx.seen("second_salt_via", "recompile of the first evaluator" if reuse else "a second evaluator")
         for salt in (s1, s2):
             text = program(vec, salt, fields, shape)
+            if built[salt] is None:
+                try:
+                    built[s1][1].recompile(text)
+                    built[salt] = built[s1]
+                except Exception as e:  # noqa: BLE001
+                    built[salt] = ("exc", type(e).__name__, str(e)[:100])
             got, err = assign(im, text, pop, built[salt])
             ctx.evaluated(len(pop))
             if got is None:
